@@ -377,7 +377,7 @@ def body_threads(case):
 
 def tests(tier):
     ts = [
-        TestSpec("history", gen_case, body, {"quick": 400, "thorough": 40000}, tape=3072, fuzz={"thorough": 15000}),
+        TestSpec("history", gen_case, body, {"quick": 400, "thorough": 40000}, tape=3072, fuzz={"thorough": 5000}),
         TestSpec("history-machine", gen_case, body, {"quick": 80, "thorough": 6000}, tape=3072, machine=machine),
     ]
     if tier == "thorough":
